@@ -1,6 +1,7 @@
 /- Token-level parser/printer for the SCHC-level streams (no Mathlib). -/
 import Schc.Drv.Common
 import Schc.Py.Manager
+import Schc.Py.Order
 
 namespace Schc.Drv
 open Schc
@@ -93,5 +94,19 @@ def showFields (fs : List Field) : String := " ".intercalate (fs.map showField)
 def showPairs (fs : List (String × ABuf)) : String := " ".intercalate (fs.map fun f => s!"{esc f.1}|{showABuf f.2}")
 
 def runP {α} (p : P α) (toks : List String) : Option α := (p.run toks).map (·.1)
+
+/-! The model sorts the compute entries with a stable insertion sort, which is what `list.sort` returns only when
+    `compute_function_sort` orders the entries consistently (one direction per pair, no cycle). On a rule where it does
+    not (e.g. a checksum placed BEFORE the length it depends on and another length in between), CPython's result
+    depends on the comparison schedule of its own algorithm: the model says so (`unmodelled`) instead of answering.
+    The test is `Rule.orderOkAll` (Schc.Py.Order); `Schc.Proofs.SortUnique` proves that it makes the sorted order unique. -/
+def guardRules {α} (rs : List Rule) (x : Py α) : Py α := if rs.all Rule.orderOkAll then x else throw .unmodelled
+
+def decompressG (s : ABuf) (r : Rule) : Py ABuf := guardRules [r] (decompress s r)
+def decompressToFieldsG (s : ABuf) (r : Rule) : Py Compute.Fields := guardRules [r] (decompressToFields s r)
+def decompressDG (s : ABuf) (r : Rule) (d : Option Dir) : Py ABuf := guardRules [r] (decompressD s r d)
+def managerDecompressG (rs : List Rule) (s : ABuf) (d : Option Dir := none) : Py ABuf := guardRules rs (managerDecompress rs s d)
+def frontDecompressG (cs : List Context) (s : ABuf) (i : String) : Py ABuf :=
+  guardRules (cs.flatMap (·.ruleset)) (frontDecompress cs s i)
 
 end Schc.Drv
